@@ -1,6 +1,7 @@
 package checks
 
 import (
+	"encoding/json"
 	"fmt"
 	"strings"
 	"testing"
@@ -62,3 +63,6 @@ func run(p *vm.Program, env interface{}) (out interface{}, err error) {
 func pcase(property, sub string) *core.Case {
 	return &core.Case{Property: property, Sub: sub, P: map[string]interface{}{}}
 }
+
+func jsonMarshal(v interface{}) ([]byte, error)   { return json.Marshal(v) }
+func jsonUnmarshal(b []byte, v interface{}) error { return json.Unmarshal(b, v) }
